@@ -17,8 +17,9 @@ static bool rtosc_match_number(const char **pattern, const char **msg)
         return false;
 
     //Read in both numeric values
-    unsigned max = atoi(*pattern);
-    unsigned val = atoi(*msg);
+    //(strtoul saturates: an index of 2^32 + n must not pass for n)
+    unsigned long max = strtoul(*pattern, NULL, 10);
+    unsigned long val = strtoul(*msg, NULL, 10);
 
     ////Advance pointers
     while(isdigit(**pattern))++*pattern;
